@@ -232,6 +232,7 @@ EXTRA = {
  "C15": " Also: ApplyInducedField_site feeds only the induced dipole of the source into the Thole tensor product (R15.7).",
  "C17": " Also: every container reader (matrix, vector<T>, vector<string>, vector<Vector3d>) sets the size of its target from the stored extent before every normal return (R17.3 reader-target-reset).",
  "C18": " Also: a literal shortcut in bead selection (== instead of wildcmp) must be guarded by a wildcard test that covers both '*' and '?' (R18.5).",
+ "C16": " Also: reduceGraph takes the nodes of the reduced graph from the whole input graph (copyNodes(graph) before the return, or graph.getNodes() in the constructor), never from the chain vertices (R16.8).",
  "C19": " Also: the column tables of CsgFunctions.pm readin_table / readin_table_err are read off the subs' op-trees: x, y, (error) from columns 0, 1, (2), flag from the last column, which is also the validated one (R19.3).",
 }
 for k_, t_ in EXTRA.items():
